@@ -196,6 +196,10 @@ func (m *omap) insert(k, v value) {
 		panic(targetPanic{iface{t: types.Typ[types.String], v: "assignment to entry in nil map"}})
 	}
 	nk := normKey(k)
+	if _, sym := k.(*sstr); sym {
+		// the key has been enumerated: store its concrete value
+		k = nk.(string)
+	}
 	if i, ok := m.idx[nk]; ok {
 		m.vals[i] = v
 		return
